@@ -23,7 +23,7 @@ vf::Shape shape() {
   sh.n_elems = 1;
   sh.ep = EP_ALL;
   sh.scalars = {SK_ANGLE, SK_ANGLE, SK_ANGLE, SK_SIGNED_MAG, SK_SIGNED_MAG, SK_SIGNED_MAG, SK_SIGNED_MAG, SK_SIGNED_MAG, SK_SIGNED_MAG, SK_SIGNED_MAG};
-  sh.ints = {{0, 8}, {0, 1}, {0, 2}};   // norm deviation selector, hemisphere, gimbal forcing
+  sh.ints = {{0, 8}, {0, 1}, {0, 2}, {0, 40}};   // norm deviation selector, sign of the deviation, gimbal forcing, scale selector for normalize()
   sh.is_float = kIsFloat;
   return sh;
 }
@@ -266,7 +266,10 @@ template <class G, class = void> struct has_normalize : std::false_type {};
 template <class G> struct has_normalize<G, decltype(void(std::declval<G&>().normalize()))> : std::true_type {};
 template <class G> static void normalize_check(Chk& k, const Spec& s, const Case& c, const G& X) {
   if constexpr (has_normalize<G>::value) {
-    const Scalar sc = (Scalar)std::pow(10.0, ((int)c.ints[0] - 4) * 0.75);   // 1e-3 .. 1e3
+    // non-degenerate data: scaled by 1e-3 .. 1e3, or off-norm by only 1e-16 .. 1e-1 (both signs)
+    const int sel = (int)c.ints[3];
+    const Scalar sc = sel <= 8 ? (Scalar)std::pow(10.0, (sel - 4) * 0.75)
+                               : (Scalar)(1.0 + ((sel % 2) ? -1.0 : 1.0) * std::pow(10.0, -((sel - 9) / 2 + 1)));
     std::vector<Scalar> buf(R);
     for (int i = 0; i < R; ++i) buf[i] = X.coeffs()(i);
     const Elem& e = s.e[0];
